@@ -17,7 +17,7 @@ use std::sync::atomic::{AtomicBool, Ordering};
 use vm_memory::verif_hooks::{trace_arm, trace_take, Access};
 use vm_memory::{Bytes, GuestAddress, GuestMemory, GuestMemoryRegion, MemoryRegionAddress, ReadVolatile, VolatileMemory, VolatileSlice, WriteVolatile};
 
-const NENTRY: u64 = 31;
+const NENTRY: u64 = 35;
 const ENTRY_NAMES: [&str; NENTRY as usize] = [
     "slice.write", "slice.read", "slice.write_slice", "slice.read_slice", "slice.copy_from::<u8>", "slice.copy_to::<u8>",
     "array<u8>.copy_from", "array<u8>.copy_to", "<&[u8]>::read_volatile", "<&mut [u8]>::write_volatile", "Cursor<&[u8]>::read_volatile",
@@ -25,6 +25,9 @@ const ENTRY_NAMES: [&str; NENTRY as usize] = [
     "region.write", "region.read", "region.write_slice", "region.read_slice", "mem.write", "mem.read", "mem.write_slice", "mem.read_slice",
     "mem.read_volatile_from(&[u8])", "mem.write_volatile_to(Vec)", "slice.write_obj", "slice.read_obj", "region.write_obj", "region.read_obj",
     "mem.write_obj", "mem.read_obj",
+    // sinks whose spare capacity (local%8 bytes) is smaller than the transfer
+    "Vec<u8>(nearly full)::write_all_volatile", "slice.write_all_volatile_to(Vec nearly full)", "mem.write_volatile_to(Vec nearly full)",
+    "mem.write_all_volatile_to(Vec nearly full)",
 ];
 
 /// 8-aligned scratch buffer
@@ -100,18 +103,24 @@ fn run_class(t: &mut Tape, cx: &mut Cx) -> Result<(), String> {
     let len = t.below(25) as usize; // 0..=8 enumerated, 9..=24 bulk observation
     let gmod = t.below(8) as usize;
     let lmod = t.below(8) as usize;
-    run_one(entry, len, gmod, lmod, 0, cx)
+    let at_end = t.below(2) == 1;
+    run_one(entry, len, gmod, lmod, 0, at_end, cx)
 }
 
-fn run_one(entry: usize, len: usize, gmod: usize, lmod: usize, extra_off: usize, cx: &mut Cx) -> Result<(), String> {
-    let is_obj = entry >= 25;
+fn run_one(entry: usize, len: usize, gmod: usize, lmod: usize, extra_off: usize, at_end: bool, cx: &mut Cx) -> Result<(), String> {
+    let is_obj = (25..=30).contains(&entry);
     let len = if is_obj { [1usize, 2, 4, 8][len % 4] } else { len };
-    let what = format!("{}(len {}, guest%8={}, local%8={})", ENTRY_NAMES[entry], len, gmod, lmod);
+    // region / guest level: optionally the last possible position inside the 64-byte region
+    let at_end = at_end && (15..=30).contains(&entry) || at_end && entry >= 33;
+    let what = format!("{}(len {}, guest%8={}, local%8={}{})", ENTRY_NAMES[entry], len, gmod, lmod, if at_end { ", at the end of the region" } else { "" });
+    if at_end {
+        cx.nt("ends_at_region_end");
+    }
     note!(cx, "{}", what);
     cx.label(if is_obj { "object_entry" } else { "buffer_entry" });
     // guest side at slice level: an 8-aligned container, access at offset 8+gmod
     let mut cont = Aligned::new(96);
-    let goff = 8 + gmod + extra_off;
+    let goff = if at_end { (64 - len - gmod) / 8 * 8 + gmod } else { 8 + gmod + extra_off };
     // SAFETY: live buffer of >= 96 bytes.
     let cs = unsafe { VolatileSlice::new(cont.ptr(), 96) };
     let mut local = Aligned::new(64);
@@ -165,6 +174,16 @@ fn run_one(entry: usize, len: usize, gmod: usize, lmod: usize, extra_off: usize,
             22 => { ok!(w.mem.read_slice(lbuf, ga)); (rhost + goff, false) }
             23 => { let mut s: &[u8] = lbuf; ok!(w.mem.read_volatile_from(ga, &mut s, len)); (rhost + goff, true) }
             24 => { let mut v: Vec<u8> = Vec::with_capacity(64); v.extend(std::iter::repeat(0u8).take(lmod)); ok!(w.mem.write_volatile_to(ga, &mut v, len)); (rhost + goff, false) }
+            31 => {
+                let mut v: Vec<u8> = Vec::with_capacity(8 + lmod);
+                v.extend(std::iter::repeat(0u8).take(8));
+                let d = cs.subslice(goff, len).map_err(|e| format!("{:?}", e))?;
+                ok!(v.write_all_volatile(&d));
+                (guest_slice, false)
+            }
+            32 => { let mut v: Vec<u8> = Vec::with_capacity(8 + lmod); v.extend(std::iter::repeat(0u8).take(8)); ok!(cs.write_all_volatile_to(goff, &mut v, len)); (guest_slice, false) }
+            33 => { let mut v: Vec<u8> = Vec::with_capacity(8 + lmod); v.extend(std::iter::repeat(0u8).take(8)); ok!(w.mem.write_volatile_to(ga, &mut v, len)); (rhost + goff, false) }
+            34 => { let mut v: Vec<u8> = Vec::with_capacity(8 + lmod); v.extend(std::iter::repeat(0u8).take(8)); ok!(w.mem.write_all_volatile_to(ga, &mut v, len)); (rhost + goff, false) }
             25 | 27 | 29 => {
                 let ty = [0usize, 1, 2, 3][[1usize, 2, 4, 8].iter().position(|x| *x == len).unwrap()];
                 let bytes = [0x5Au8; 16];
@@ -198,7 +217,8 @@ fn run_one(entry: usize, len: usize, gmod: usize, lmod: usize, extra_off: usize,
 
 fn gen_classes(_t: Tier) -> Box<dyn Iterator<Item = Vec<u64>>> {
     Box::new((0..NENTRY).flat_map(|e| {
-        (0..25u64).flat_map(move |len| (0..8u64).flat_map(move |g| (0..8u64).map(move |l| vec![e, len, g, l])))
+        let ends: u64 = if (15..=30).contains(&e) || e >= 33 { 2 } else { 1 };
+        (0..25u64).flat_map(move |len| (0..8u64).flat_map(move |g| (0..8u64).flat_map(move |l| (0..ends).map(move |at| vec![e, len, g, l, at]))))
     }))
 }
 
@@ -212,7 +232,8 @@ fn run_random(t: &mut Tape, cx: &mut Cx) -> Result<(), String> {
     let gmod = t.idx(8);
     let lmod = t.idx(8);
     let extra = 8 * t.idx(3);
-    run_one(entry, len, gmod, lmod, extra, cx)
+    let at_end = t.chance(1, 4);
+    run_one(entry, len, gmod, lmod, extra, at_end, cx)
 }
 
 /// Atomic API: every AtomicAccess type at every offset mod 16, all orderings.
